@@ -225,7 +225,7 @@ pub fn check(thorough: bool, seed: u64) -> Check {
             let r = exact::series_r(x);
             let (s, t) = exact_value(&p, v, x, &r);
             let ten12 = Dy { m: Big::from_decimal("1000000000000"), e: 0 };
-            let good = IntOfLogPoly4 { k: 1.0, coeffs: [0.5, -0.25, 0.125, 1.0], u: -1.0 }.evaluate(v);
+            let good = s.to_f64(); // the exact value rounded by the harness (never the subject)
             if !dy(good).sub(&s).abs().mul(&ten12).le(&t) { return Err("good value rejected".into()); }
             if dy(good + t.to_f64() * 1e-11).sub(&s).abs().mul(&ten12).le(&t) { return Err("bad value accepted".into()); }
             Ok(())
